@@ -8,25 +8,42 @@
     Property theorems only; model in Model/Teardown.v, proofs in Proofs/TeardownProofs.v.
     Quantification: any state satisfying the invariant [wf] (the stored reference counts equal the
     number of live holders, every running or abandoned operation has exactly one final completion
-    still due, ...) — in particular [init pp] for every population [pp] of any size
-    ([init_wf]) —, and any list of [Drop]/[KComplete] events in which a future is not dropped
-    after the [AsyncFd] it borrows ([borrows_ok], what the borrow checker enforces). *)
+    still due, every posted result of a two-step operation is followed by its final completion,
+    ...) — in particular [init pp] for every population [pp] of any size ([init_wf]), whose
+    operations may be single-step or two-step (zero-copy sends: result with F_MORE, then the
+    notification), cancellable or not, and start in any of eight states —, and any list of
+    [Drop]/[KComplete] events (the kernel's completions come at any point, also after the Ring and
+    every handle are gone) in which a future is not dropped after the [AsyncFd] it borrows
+    ([borrows_ok], what the borrow checker enforces). *)
 From A10 Require Import Base.Word Base.Run Model.Teardown Proofs.TeardownProofs.
 
-(** The log replays against the resource monitor ... *)
+(** The log replays against the resource monitor — for every population, with operations that
+    survive the blanket cancellation and two-step (zero-copy send) operations in any state, and
+    with kernel completions anywhere, also after the Ring is gone. No exclusion. *)
 Theorem C12_teardown_memory_safe : teardown_memory_safe.
 Proof. exact teardown_memory_safe_holds. Qed.
+
+(** The same over the code as it is (the repaired drain of fbe02e5). *)
+Theorem C12_teardown_memory_safe_fixed : teardown_memory_safe_fixed.
+Proof. exact teardown_memory_safe_fixed_holds. Qed.
 
 (** ... which means, in plain terms: no access to a mapping after its munmap, each munmap with the
     mapping's own length and not repeated, the ring descriptor closed at most once, after the three
     munmaps and after the last enter / register on it, no allocation freed twice, no pool memory
-    used or unregistered after it was freed, no descriptor closed twice. *)
+    used or unregistered after it was freed, no descriptor closed twice, the completion handler
+    never touches an operation state after its release, and ([log_due_safe]) when an operation
+    state is released every request of that operation accepted by the kernel has had its final
+    completion processed: nothing in flight, no final completion still to be processed. *)
 Theorem C12_teardown_log_safe : teardown_log_safe.
 Proof. exact teardown_log_safe_holds. Qed.
 
+Theorem C12_teardown_log_safe_fixed : teardown_log_safe_fixed.
+Proof. exact teardown_log_safe_fixed_holds. Qed.
+
 (** When every live object is dropped: nothing stays mapped, the ring descriptor is closed, no
     pool stays registered or allocated; an operation state that is still allocated implies the
-    named class H14, an [AsyncFd] descriptor that is still open implies the named class H13. *)
+    named class H14 or the named class H28 for that very operation (still in flight after the Ring
+    was dropped), an [AsyncFd] descriptor that is still open implies the named class H13. *)
 Theorem C12_teardown_releases_everything : teardown_releases_everything.
 Proof. exact teardown_releases_everything_holds. Qed.
 
@@ -38,7 +55,7 @@ Proof. exact teardown_exactly_once_holds. Qed.
 Theorem C12_teardown_of_populations : teardown_of_populations.
 Proof. exact teardown_of_populations_holds. Qed.
 
-(** The two named classes are inhabited (the code violates the property there). *)
+(** The named classes are inhabited (the code violates the property there). *)
 Theorem C12_fd_dropped_after_ring_refuted :
   exists pp es, pop_ok pp /\ covers (init pp) es /\ borrows_ok step (init pp) es /\
     exists m, replay (pp_d pp) (mon_of (init pp)) (snd (run step (init pp) es)) = Some m /\
@@ -51,22 +68,77 @@ Theorem C12_abandoned_ops_beyond_cq_capacity_refuted :
               nth 2 (m_box m) false = true /\ m_desc m = [false].
 Proof. exact abandoned_ops_beyond_cq_capacity_refuted. Qed.
 
-(** The repaired drain (proposed_fix_h14.diff, [drop_ring_fixed]): no exception for operation
-    states. Not the code as it is; the correspondence runs [drop_ring]. *)
+(** H28: an operation still in flight after the Ring was dropped — it survived the blanket
+    cancellation, or (second witness) it is a zero-copy send whose notification is outstanding —
+    keeps its state for ever (the code as it is; a leak, memory safe). *)
+Theorem C12_op_in_flight_after_ring_drop_refuted :
+  exists pp es, pop_ok pp /\ covers (init pp) es /\ borrows_ok step_fixed (init pp) es /\
+    exists m, replay (pp_d pp) (mon_of (init pp)) (snd (run step_fixed (init pp) es)) = Some m /\
+              nth 0 (m_box m) false = true /\ m_fd m = false.
+Proof. exact op_in_flight_after_ring_drop_refuted. Qed.
+
+Theorem C12_op_in_flight_after_ring_drop_refuted_notification :
+  exists pp es, pop_ok pp /\ covers (init pp) es /\ borrows_ok step_fixed (init pp) es /\
+    exists m, replay (pp_d pp) (mon_of (init pp)) (snd (run step_fixed (init pp) es)) = Some m /\
+              nth 0 (m_box m) false = true /\ m_fd m = false.
+Proof. exact op_in_flight_after_ring_drop_refuted_notification. Qed.
+
+(** The repaired drain (fbe02e5, [drop_ring_fixed]) — the code as it is, and what the
+    correspondence runs: no exception for the size of the completion queue; what remains is H28
+    and H13. *)
 Theorem C12_teardown_releases_everything_fixed : teardown_releases_everything_fixed.
 Proof. exact teardown_releases_everything_fixed_holds. Qed.
 
+Theorem C12_teardown_of_populations_fixed : teardown_of_populations_fixed.
+Proof. exact teardown_of_populations_fixed_holds. Qed.
+
+(** The two seeded regressions break memory safety (witnesses by computation): with C12-c
+    (release on the result completion of an abandoned two-step operation) and with C01-f (release
+    at drop time once the Ring is gone) the log of a small population no longer replays, because a
+    state is released while its request is in flight; the code as it is replays on the same input. *)
+Theorem C12_seeded_c12c_releases_state_in_flight_refuted :
+  exists pp es, pop_ok pp /\ covers (init pp) es /\ borrows_ok step_fixed (init pp) es /\
+    (exists m, replay (pp_d pp) (mon_of (init pp)) (snd (run step_fixed (init pp) es)) = Some m) /\
+    replay (pp_d pp) (mon_of (init pp)) (snd (run step_c12c (init pp) es)) = None /\
+    ~ log_due_safe (m_due (mon_of (init pp))) (snd (run step_c12c (init pp) es)).
+Proof. exact c12c_releases_state_in_flight_refuted. Qed.
+
+Theorem C12_seeded_c12c_uses_released_state_in_drain_refuted :
+  exists pp es, pop_ok pp /\ covers (init pp) es /\ borrows_ok step_fixed (init pp) es /\
+    (exists m, replay (pp_d pp) (mon_of (init pp)) (snd (run step_fixed (init pp) es)) = Some m /\ m_box m = [false]) /\
+    replay (pp_d pp) (mon_of (init pp)) (snd (run step_c12c (init pp) es)) = None /\
+    exists l1 l2, snd (run step_c12c (init pp) es) = l1 ++ LFree (ABox 0) :: l2 /\ In (LProcess 0 true) l2.
+Proof. exact c12c_uses_released_state_in_drain_refuted. Qed.
+
+Theorem C12_seeded_c01f_releases_state_in_flight_refuted :
+  exists pp es, pop_ok pp /\ covers (init pp) es /\ borrows_ok step_fixed (init pp) es /\
+    (exists m, replay (pp_d pp) (mon_of (init pp)) (snd (run step_fixed (init pp) es)) = Some m) /\
+    replay (pp_d pp) (mon_of (init pp)) (snd (run step_c01f (init pp) es)) = None /\
+    ~ log_due_safe (m_due (mon_of (init pp))) (snd (run step_c01f (init pp) es)).
+Proof. exact c01f_releases_state_in_flight_refuted. Qed.
+
 Check C12_teardown_memory_safe : teardown_memory_safe.
+Check C12_teardown_memory_safe_fixed : teardown_memory_safe_fixed.
 Check C12_teardown_log_safe : teardown_log_safe.
+Check C12_teardown_log_safe_fixed : teardown_log_safe_fixed.
 Check C12_teardown_releases_everything : teardown_releases_everything.
 Check C12_teardown_exactly_once : teardown_exactly_once.
 Check C12_teardown_of_populations : teardown_of_populations.
 Check C12_teardown_releases_everything_fixed : teardown_releases_everything_fixed.
+Check C12_teardown_of_populations_fixed : teardown_of_populations_fixed.
 Print Assumptions C12_teardown_memory_safe.
+Print Assumptions C12_teardown_memory_safe_fixed.
 Print Assumptions C12_teardown_log_safe.
+Print Assumptions C12_teardown_log_safe_fixed.
 Print Assumptions C12_teardown_releases_everything.
 Print Assumptions C12_teardown_exactly_once.
 Print Assumptions C12_teardown_of_populations.
 Print Assumptions C12_fd_dropped_after_ring_refuted.
 Print Assumptions C12_abandoned_ops_beyond_cq_capacity_refuted.
+Print Assumptions C12_op_in_flight_after_ring_drop_refuted.
+Print Assumptions C12_op_in_flight_after_ring_drop_refuted_notification.
 Print Assumptions C12_teardown_releases_everything_fixed.
+Print Assumptions C12_teardown_of_populations_fixed.
+Print Assumptions C12_seeded_c12c_releases_state_in_flight_refuted.
+Print Assumptions C12_seeded_c12c_uses_released_state_in_drain_refuted.
+Print Assumptions C12_seeded_c01f_releases_state_in_flight_refuted.
